@@ -110,6 +110,25 @@ func KernelHelperMain() int {
 			syscall.Umask(0)
 		case "snap":
 			rs.Snap = fsx.Snapshot(env.VFS, "/", fsx.SnapOpts{Mtime: rq.Mtime, NoOwner: rq.NoOwn}).String()
+		case "hclass":
+			// what a handle is before a call: none, file, directory, or a directory that no longer is where it was opened.
+			cl := "hnone"
+			if h := rq.Op.H; h >= 0 && h < fsx.MaxHandles && env.H[h] != nil {
+				cl = "hfile"
+
+				if env.IsDir[h] {
+					cl = "hdir"
+
+					fi1, err1 := env.H[h].Stat()
+					fi2, err2 := os.Stat(env.H[h].Name())
+
+					if err1 != nil || err2 != nil || !os.SameFile(fi1, fi2) {
+						cl = "hdir-moved"
+					}
+				}
+			}
+
+			rs.Classes = []string{cl}
 		case "classify":
 			for _, p := range rq.Paths {
 				rs.Classes = append(rs.Classes, classifyPath(p, rq.Cwd))
